@@ -52,7 +52,10 @@ def run(ctx: Ctx):
     # boundary family at the real limit
     r = ctx.mc("MC_Folding", cfg_text(init="InitBoundary", next="NextNone", constants={
         "Limit": 75, "MaxLen": 0, "Alpha": ALPHA, "Emit": True,
-        "Wide": {233, 8364, 128512, 32, 13, 9} if not ctx.quick else {233, 8364, 128512, 13},
+        # one code point per UTF-8 width, plus code points a Unicode-aware folder might treat specially: combining
+        # marks of 2/3/4 octets, joiners and variation selectors, the line separators of str.splitlines()
+        "Wide": ({233, 8364, 128512, 32, 13, 9} if not ctx.quick else {233, 8364, 128512, 13})
+        | {0x301, 0x20D7, 0x1D167, 0x200D, 0xFE0F, 0x2028, 0x85, 0x1C, 0x0B, 0xA0},
         "Lo": 68 if ctx.quick else 60, "Hi": 76 if ctx.quick else 80,
         "Tails": {0, 1, 75} if ctx.quick else {0, 1, 74, 75, 76}},
         invariants=["InvFold", "InvUnfold", "Vec"]), workers=4 if ctx.quick else 12, timeout=3000)
@@ -65,7 +68,8 @@ def run(ctx: Ctx):
     # ------------------------------------------------------------- RECORD
     rnd = random.Random(ctx.seed)
     nrand = 300 if ctx.quick else 3000
-    widths = [97, 98, 32, 9, 13, 233, 0x7ff, 0x800, 8364, 0xffff, 0x10000, 128512, 0x10ffff, 58, 59]
+    widths = [97, 98, 32, 9, 13, 233, 0x7ff, 0x800, 8364, 0xffff, 0x10000, 128512, 0x10ffff, 58, 59,
+              0x301, 0x308, 0x20D7, 0x1D167, 0x200D, 0xFE0F, 0x2028, 0x2029, 0x85, 0x1C, 0x0B, 0x0C, 0xA0, 0x5B0, 0x64B]
     for i in range(nrand):
         n = rnd.randint(50, 400 if not ctx.quick else 240)
         mode = rnd.random()
